@@ -122,6 +122,10 @@ pub fn extras() -> Vec<&'static str> {
         // cogeneration units that burn fuel in steps in which they deliver no electricity (stand-by, heat-led operation), two fuels, exporting
         "0,CONSUMO,ILU,ELECTRICIDAD,10,10,10,10\n1,CONSUMO,COGEN,GASNATURAL,40,15,40,0\n1,PRODUCCION,EL_COGEN,20,0,20,0\n1,CONSUMO,COGEN,BIOMASA,10,0,10,5\n2,CONSUMO,CAL,GASNATURAL,30,30,30,30",
         "0,CONSUMO,ILU,ELECTRICIDAD,2,2,2\n1,CONSUMO,COGEN,GASOLEO,30,9,0\n1,PRODUCCION,EL_COGEN,10,0,0\n3,PRODUCCION,EL_INSITU,0,1,5\n0,CONSUMO,NEPB,ELECTRICIDAD,1,1,1",
+        // generators that are declared and idle (lines of zeros): PV next to a used one, solar thermal, PV alone, a cogeneration unit
+        "0,CONSUMO,CAL,ELECTRICIDAD,10,10,10\n0,PRODUCCION,EL_INSITU,0,0,0",
+        "0,CONSUMO,ACS,TERMOSOLAR,0,0,0\n0,PRODUCCION,TERMOSOLAR,0,0,0\n1,CONSUMO,ACS,GASNATURAL,5,5,5\n2,CONSUMO,ILU,ELECTRICIDAD,1,1,1\n3,PRODUCCION,EL_COGEN,0,0,0\n3,CONSUMO,COGEN,GASNATURAL,0,0,0",
+        "0,CONSUMO,ILU,ELECTRICIDAD,4,4,4\n1,PRODUCCION,EL_INSITU,10,10,10\n2,PRODUCCION,EL_COGEN,0,0,0\n2,CONSUMO,COGEN,GASNATURAL,0,0,0\n3,CONSUMO,CAL,GASNATURAL,20,20,20",
         // declared ambient production a few Wh short of the use (the missing part is added whatever its size)
         "1,CONSUMO,CAL,EAMBIENTE,0.019,0,0.05\n1,PRODUCCION,EAMBIENTE,0.012,0,0.05\n2,CONSUMO,ILU,ELECTRICIDAD,1,1,1",
         // auxiliary energy as the only electricity component; a step with very little on-site production next to a large one
